@@ -182,9 +182,18 @@ def _record_shard(args):
 
 
 def _validate(path):
-    acc, prefix, res = validate_trace(TRACE_SPEC, path, timeout=6 * 3600)
+    sink = []
+    acc, prefix, res = validate_trace(TRACE_SPEC, path, timeout=6 * 3600, json_sink=sink.append)
+    # the verdict lines TLC printed (PrintT(ToJson(..)) prints a quoted TLA+ string); also look in the raw
+    # output so that the parse does not depend on which lines the TLC runner chose to collect
+    for line in res.out.splitlines():
+        if line.startswith('"{') and line.endswith('}"') and "verdict" in line:
+            try:
+                sink.append(json.loads(line[1:-1].replace('\\"', '"').replace("\\\\", "\\")))
+            except ValueError:
+                pass
     seen, verdicts = set(), []
-    for v in res.json:
+    for v in sink + list(res.json):
         if v.get("verdict") == "rejected" and v["line"] not in seen:
             seen.add(v["line"])
             verdicts.append(v)
